@@ -34,7 +34,7 @@ EXPLANATION = (
     "contents and buffers are Unknown, callees at the boundary of the function are hooked and recorded as "
     "events, every path is enumerated). (7) tag bytes built by OR-ing shifted fields (Snappy / LZ4 "
     "elements, RLE run headers, Thrift field and list headers) hold every field value the guards on the "
-    "path admit. Decides these clauses, not value/null-position equality (the "
+    "path admit. (8) carquet_page_writer_add_values followed by carquet_page_writer_num_values, executed with the encoders hooked over NULL / value mixes: the pending count is the number of level entries handed in, so a page of NULLs only is flushed and counted like any other. Decides these clauses, not value/null-position equality (the "
     "multi-batch level layout is a known value-level limitation described in DESIGN.md).")
 
 PW = "src/writer/page_writer.c"
@@ -56,6 +56,8 @@ def run(ctx):
     ctx.clause("C01.4 level encoder never pads mid-stream; PLAIN sizes agree")
     ctx.clause("C01.5 PLAIN BYTE_ARRAY accepts exactly fitting pages (skeleton with abstract lengths)")
     ctx.clause("C01.6 the codec tag alone decides raw vs codec stream, in compress_data and in decompress_page")
+    ctx.clause("C01.8 the page writer's pending count is the number of level entries it was given, NULL entries included (an all-NULL page is a page)")
+    ctx.floor("C01 page-count batch sequences", _page_counts(ctx), 4)
     ctx.clause("C01.7 tag bytes written by the compressors, the level encoder and the Thrift encoder hold every field value their guards admit")
     from ..rules import fieldfit
     nff, nffd = fieldfit.check(ctx, P.funcs_in("src/compression/snappy.c", "src/compression/lz4.c", "src/encoding/rle.c", "src/thrift/thrift_encode.c"))
@@ -277,3 +279,65 @@ def _byte_array(ctx):
            "PLAIN BYTE_ARRAY: every exactly fitting page of 0..3 values with lengths in {0,1,5} is consumed "
            "completely, a page one byte short is refused, no read leaves the page, the encoder appends sum(4+len)",
            not bad, "; ".join(bad[:3]))
+
+
+def _page_counts(ctx):
+    """carquet_page_writer_add_values followed by carquet_page_writer_num_values, executed abstractly (level and value
+    encoders hooked): the count the column writer tests for `page is empty` and adds to the chunk's value count is the
+    number of level entries handed in - NULL entries included. A page of NULLs only is still a page that has to be written."""
+    from ..rules import sem
+    from ..rules.skeleton import Ptr
+    P = ctx.P
+    PWF = "src/writer/page_writer.c"
+    add = P.fn_opt("carquet_page_writer_add_values", PWF)
+    cnt = P.fn_opt("carquet_page_writer_num_values", PWF)
+    if add is None or cnt is None:
+        raise AnalysisBroken("anchor functions carquet_page_writer_add_values / carquet_page_writer_num_values not found in %s" % PWF)
+    key = "page-count|%s:carquet_page_writer_num_values" % PWF
+    what = ("after add_values the page writer reports every level entry it was given as pending - entries that are NULL included "
+            "(the column writer skips a page whose count is 0 and sums the counts into the chunk's num_values)")
+    try:
+        rec = P.record("carquet_page_writer")
+        wo = sem.field_offsets(P, "carquet_page_writer")
+        phys = P.enum("carquet_physical_type")
+        bad = None
+        done = 0
+        for label, batches in (("3 entries, all NULL", [[0, 0, 0]]), ("3 entries, none NULL", [[1, 1, 1]]), ("NULL, value, NULL", [[0, 1, 0]]),
+                               ("3 NULL entries, then 2 values", [[0, 0, 0], [1, 1]]), ("a REQUIRED column, 4 values", [None])):
+            heap = {}
+            for f in rec["fields"]:
+                t = (f.get("t") or "")
+                if f.get("off") is not None and "*" not in t and "[" not in t and "struct" not in t and "carquet_buffer" not in t:
+                    heap[("pw", f["off"] // 8)] = 0
+            heap[("pw", wo["type"])] = phys["CARQUET_PHYSICAL_INT32"]
+            heap[("pw", wo["max_def_level"])] = 0 if batches == [None] else 1
+            total = 0
+            for dl in batches:
+                n_ = 4 if dl is None else len(dl)
+                total += n_
+                h = dict(heap)
+                for i in range(8):
+                    h.pop(("dl", 2 * i), None)
+                if dl is not None:
+                    for i, v in enumerate(dl):
+                        h[("dl", 2 * i)] = v
+                hooks = {"encode_levels": lambda ev, a, it: 0, "update_statistics_i32": lambda ev, a, it: None}
+                for nm in P.by_name:
+                    if nm.startswith("carquet_encode_plain_") or nm.startswith("update_statistics_"):
+                        hooks[nm] = (lambda ev, a, it: 0)
+                ret, ev, heap = sem.run(P, add, [Ptr("pw", 0, 1), Ptr("vals", 0, 4), n_, Ptr("dl", 0, 2) if dl is not None else 0, 0], heap0=h, hooks=hooks,
+                                        single=True, max_forks=16, budget=200000, inline_depth=3)
+                if ret != 0:
+                    raise sem.Inconclusive("%s: add_values returns %r" % (label, ret))
+            got, ev2, heap2 = sem.run(P, cnt, [Ptr("pw", 0, 1)], heap0=heap, hooks={}, single=True, max_forks=4, budget=20000)
+            done += 1
+            if not isinstance(got, int):
+                raise sem.Inconclusive("%s: the count is %r" % (label, got))
+            if got != total and bad is None:
+                bad = "%s: %d entries handed in, carquet_page_writer_num_values reports %d%s" % (
+                    label, total, got, " - the page looks empty and is never written" if got == 0 else "")
+        ctx.ob("R5.agree", key, P.where(cnt.body), what + " (%d batch sequences)" % done, bad is None, bad or "")
+        return done
+    except (sem.Inconclusive, KeyError) as ex:
+        ctx.inconclusive("R5.agree", key, P.where(cnt.body), what, "%s: %s" % (type(ex).__name__, ex))
+        return 0
